@@ -44,7 +44,7 @@ def _model_registry(chk, thorough):
     if not r.ok:
         chk.violation({"event": "model", "cfg": "MC_Libec_registry_full"}, "registry model violates an invariant: %s" % r.out[-2000:])
     if thorough:
-        api = src.replace("MaxDepth = 9", "MaxDepth = 60").replace("WithApi = FALSE", "WithApi = TRUE")
+        api = src.replace("MaxDepth = 9", "MaxDepth = 60").replace("WithApi = FALSE", "WithApi = TRUE").replace("WithFaults = FALSE", "WithFaults = TRUE")
         open(os.path.join(core.SPEC, "MC_Libec_api_full.cfg"), "w").write(api)
         r2 = tlc("MC_Libec", "MC_Libec_api_full", workers=8, timeout=1500, tag="api")
         chk.add_tlc(r2, "MC_Libec_api_full")
@@ -379,6 +379,18 @@ def c17():
                                        "enc_cleanup s1 1 0", "destroy s1", "probe"]))
     nrand = 200 if thorough else 40
     scripts += ["\n".join(H.random_history(_seed_of(chk, i), 150, faults=True)) for i in range(nrand)]
+    # G: behaviours of the API model with failing backend operations as actions of their own (MC_Libec, WithFaults):
+    # every transition of the graph in which a create / encode / decode / reconstruct fails, in every reachable
+    # registry and ownership state, followed by every continuation up to the depth bound
+    r, paths = _edge_paths([("EmitPaths = FALSE", "EmitPaths = TRUE"), ("WithApi = FALSE", "WithApi = TRUE"),
+                            ("WithFaults = FALSE", "WithFaults = TRUE"), ("Slots = {1, 2, 3}", "Slots = {1, 2}"),
+                            ("MaxDepth = 9", "MaxDepth = %d" % (7 if thorough else 6))], "faultedges", timeout=1500)
+    chk.add_tlc(r, "MC_Libec_faultedges")
+    if not r.ok:
+        chk.violation({"event": "model", "cfg": "MC_Libec_faultedges"}, "API model with failing backend operations violates a property: %s" % r.out[-1500:])
+    fpaths = [p_ for p_ in paths if any(st_["op"].endswith("_fail") for st_ in p_)]
+    chk.parts["model_fault_histories_replayed"] = len(fpaths)
+    scripts += ["\n".join(H.path_to_script(p_, i)) for i, p_ in enumerate(fpaths)]
     v, files = _run_hist(chk, scripts, "C17", ["C17", "C16", "C13", "C14", "C02", "fault"])
     c = v.counts or [0] * 16
     chk.cov["evaluations"] = max(chk.cov["evaluations"], 1)
